@@ -27,8 +27,15 @@ impl Desc {
     }
 }
 
+/// byte lengths of the topic names `M0`..`M5`: around the longest name whose header still fits (216)
+pub const M_LENS: [usize; 6] = [216, 217, 220, 222, 223, 200];
+
 pub fn topic_name(t: &str) -> String {
-    if let Some(k) = t.strip_prefix('L') {
+    if let Some(k) = t.strip_prefix('M') {
+        let len = M_LENS[k.parse::<usize>().unwrap_or(0) % M_LENS.len()];
+        let head = format!("M{}", k);
+        format!("{}{}", head, "y".repeat(len - head.len()))
+    } else if let Some(k) = t.strip_prefix('L') {
         format!("L{}{}", k, "x".repeat(230))
     } else {
         t.to_string()
